@@ -93,6 +93,10 @@ def source(sfx, p, with_inner=True, variant=0):
     # a class whose options apply to the classes nested in it, holding a union over a nested class
     L += [f"class NIn{S}(Schema):", "    a: int", "",
           f"class NOut{S}(Schema):", "    __options__ = Options(override=True)", f"    x: Union[NIn{S}, int]", ""]
+    # defaults that are data class instances themselves (one of them immutable), alone and inside a list
+    L += [f"class Frozen{S}(Schema):", "    __options__ = Options(immutable=True)", "    tags: List[int] = Field(default_factory=list)", "",
+          f"class Pt{S}(DataClass):", "    tags: List[int] = Field(default_factory=list)", "",
+          f"class Holder{S}(Schema):", f"    v: Frozen{S} = Frozen{S}(tags=[1])", f"    many: List[Pt{S}] = [Pt{S}(tags=[1])]", f"    one: Pt{S} = Pt{S}(tags=[2])", ""]
     # a field that is left out (at its default) under its own 'exclude' policy, and one that depends on it
     L += [f"class RX{S}(Schema):", "    dep: int = Field(default=0, on_error='exclude')", "    main: int = Field(required=False, dependencies=['dep'])", ""]
     # one Field object shared by two declarations whose types are named by reference (resolved at the first parse)
@@ -220,6 +224,8 @@ def generate(rng, tier):
                        {"op": "reinit", "cls": "NIn", "bad": rng.choice(["zz", None, [1]]), "good": rng.choice([2, "3"])})
         elif r < 0.42:
             ops.append({"op": "init", "cls": "Own", "data": rng.choice([{"pet": {"kind": "cat"}}, {}, {"pet": {"name": "rex"}}])})
+        elif r < 0.427:
+            ops.append({"op": "init", "cls": "Holder", "data": rng.choice([{}, {}, {"one": {"tags": [5]}}])})
         elif r < 0.435:
             ops.append(rng.choice([{"op": "init", "cls": "LitA", "data": {"kind": "x"}}, {"op": "init", "cls": "LitB", "data": {"name": "abc"}},
                                    {"op": "init", "cls": "LitB", "data": {"name": "abcd"}}, {"op": "init", "cls": "LitA", "data": {"kind": "y"}}]))
@@ -551,6 +557,8 @@ def execute(plan):
         if k == "nested_assign" and out[:2] == ["exc", "AssertionError"]:
             # P4: the outcome of the assignment is a function of declaration, options and the (equal) data
             res.violate("C19|P4|nested_assign|equal_instances_take_assignment_differently", f"op #{n} {op}: {out[2]}")
+        if k == "init" and op.get("cls") == "Holder" and out[0] == "exc" and out[1] != "ParseError":
+            res.violate("C19|P2|init:Holder|default_cannot_be_copied", f"op #{n} {op}: a declared default (a data class instance) makes the instantiation fail: {out}")
         if k == "iter_arg" and out[:2] == ["exc", "AssertionError"]:
             res.violate("C19|P5|iter_arg|items_lost_to_failed_trial_passes", f"op #{n} {op}: {out[2]}")
         if k == "reinit" and out[:2] == ["exc", "AssertionError"]:
